@@ -289,6 +289,8 @@ class Interp:
         """run-time requirement of a library (shape agreement ...): violating it is a path"""
         if self.in_spec:
             return
+        if V.known(cond) is True:
+            return
         ok = self.branch(cond)
         if not ok:
             raise RaiseSig(exc or "ValueError", msg)
@@ -300,7 +302,10 @@ class Interp:
             if not (0 <= i < n):
                 raise RaiseSig("IndexError", "index %s out of range %s" % (i, n))
             return
-        ok = self.branch(V.b_and(V.s_cmp(">=", i, 0), V.s_cmp("<", i, n)))
+        cond = V.b_and(V.s_cmp(">=", i, 0), V.s_cmp("<", i, n))
+        if V.known(cond) is True:       # implied by the path condition: no fork, no growth
+            return
+        ok = self.branch(cond)
         if not ok:
             raise RaiseSig("IndexError", "symbolic index out of range")
 
@@ -366,6 +371,11 @@ class Interp:
             if m is None:
                 raise RaiseSig("TypeError", "object not callable")
             return self.call_function(FuncRef(m), [fn] + list(args), kwargs)
+        if isinstance(fn, Opaque):
+            st = self.stubs.get("opaque:" + fn.tag)
+            if st is not None:
+                return st(self, *args, **kwargs)
+            raise Unsupported("call of the external routine %s (no contract)" % fn.tag)
         if callable(fn):
             return fn(*args, **kwargs)
         raise Unsupported("call of %r" % (fn,))
@@ -633,6 +643,8 @@ class Interp:
             return ExcClass(name)
         if name == "__file__":
             return "<file>"
+        if name.startswith("c_") or name == "POINTER":
+            return LibRef("ctypes." + name)          # `from ctypes import *`
         raise RaiseSig("NameError", "name %s is not defined" % name)
 
     # ---- statements ----------------------------------------------------------------
@@ -924,6 +936,11 @@ class Interp:
                 # no solver: a data dependent loop runs a fixed number of generic iterations
                 if n >= forced:
                     break
+            elif getattr(self.dom, "while_plan", None) is not None and hasattr(c, "e") and not self.dom.is_scalar(c):
+                # contract-directed unrolling: the data dependent test is taken to hold exactly
+                # `while_plan` times (recorded as an assumption of the obligation)
+                if n >= self.dom.while_plan:
+                    break
             elif not self.truth(c):
                 break
             n += 1
@@ -1105,6 +1122,8 @@ class Interp:
         acc = None
         for sub in e.values:
             v = self.eval(sub, frame)
+            if isinstance(v, Arr) and not v.is_list and v.dtype == "bool" and V.is_conc(v.n) and v.n == 1:
+                v = v.get(0)        # numpy: the truth value of a one-element array is that of its element
             symbolic = hasattr(v, "e") and not self.dom.is_scalar(v)
             if not symbolic:
                 t = self.truth(v)
